@@ -11,10 +11,13 @@
    Fragment (everything else compiles to None): integer literals; tuple literals without spreads
    (named or not, labelled or not; every field a chain of the fragment); positional field access
    on the flowing value (`.0`, `~.1`, bare `~`) and on an identifier (`x`, `x.0`); the bare
-   binder, as a binding step (`x = chain`) or in a chain (`chain =x`); chains; sequences with
-   their nil short-circuit.  What the compiler emits for these (observed on
-   `qv_compile` dumps and compared on every run by the check, `qv_ast --code` vs the extracted
-   `compile_program`):
+   binder, as a binding step (`x = chain`) or in a chain (`chain =x`); integer-literal matches
+   (`=5`); chains; sequences with their nil short-circuit; blocks with any number of branches,
+   each a condition sequence with or without a `=>` consequence (refused: a `=>` branch whose
+   condition binds — the compiler then emits an out-of-line failure handler); non-capturing
+   functions with a non-nil parameter, bound by `f = #T { body }` and called `arg f`.  What the compiler
+   emits for these (observed on `qv_compile` dumps and compared on every run by the check,
+   `qv_ast --code` vs the extracted `compile_program (normalize p)`):
 
      literal           pop; const k                      (a literal replaces the flowing value)
      tuple f0..fn-1    (pick i; <field i>)*; tuple t; rotate 2; pop
@@ -24,7 +27,18 @@
      =x                jump 1; jump 5; dup; store; pop; tuple OK; jump 4; tuple NIL; store; pop; tuple NIL
                                                           (success path, then the nil-filling failure
                                                            path that a bare binder never takes)
+     =z                jump 1; jump 8; dup; const k; equal 2; not; jumpif -6; pop; tuple OK; jump 2;
+                       pop; tuple NIL                     (a mismatch jumps back to the second
+                                                           instruction, which jumps to the nil path)
      step, rest        <step>; dup; not; jumpif |rest|; <rest>
+     { branches }      store; load b; <branches>; reset b          (b = the next free slot)
+       cond (not last)       <cond>; [reset b+1 if it bound]; dup; jumpif 2+|rest|; pop; load b; <rest>
+       cond => k (not last)  <cond>; dup; not; jumpif 3+|k'|; pop; load b; <k'>; jump 2+|rest|; pop; load b; <rest>
+       cond => k (last)      <cond>; dup; not; jumpif 2+|k'|; pop; load b; <k'>
+       cond (last)           <cond>; [reset b+1 if it bound]        (k' = <k>; [reset b+1 if it bound])
+     f = #T { body }   pop; function k; <=f>              (k: the function `store; load 0; <branches of
+                                                           body>; reset 0`, no captures)
+     arg f             <arg>; load slot(f); call
      program           store; load 0; <sequence>          (slot 0 holds the parameter)
 
    Constants and tuple ids are resolved through tables the caller supplies (`pool`, `shapes`): the
@@ -50,6 +64,10 @@ Notation IGet := Quiver.vm.Bytecode.IGet.
 Notation IJump := Quiver.vm.Bytecode.IJump.
 Notation IJumpIf := Quiver.vm.Bytecode.IJumpIf.
 Notation INot := Quiver.vm.Bytecode.INot.
+Notation IReset := Quiver.vm.Bytecode.IReset.
+Notation IEqual := Quiver.vm.Bytecode.IEqual.
+Notation IFunction := Quiver.vm.Bytecode.IFunction.
+Notation ICall := Quiver.vm.Bytecode.ICall.
 Notation NIL := Quiver.vm.Bytecode.NIL.
 Notation OK := Quiver.vm.Bytecode.OK.
 
@@ -91,6 +109,12 @@ Definition binder_code : list instr :=
   [IJump 1; IJump 5; IDuplicate; IStore; IPop; ITuple OK; IJump 4;
    ITuple NIL; IStore; IPop; ITuple NIL].
 
+(* `=z` for an integer literal: compare a copy with the constant; on a mismatch the failure path
+   (reached through the jump back to the second instruction) yields nil, otherwise Ok *)
+Definition literal_match_code (k : nat) : list instr :=
+  [IJump 1; IJump 8; IDuplicate; IConstant k; IEqual 2; INot; IJumpIf (-6); IPop; ITuple OK; IJump 2;
+   IPop; ITuple NIL].
+
 Fixpoint gets (path : list access_path) : option (list instr) :=
   match path with
   | [] => Some []
@@ -102,6 +126,26 @@ Fixpoint gets (path : list access_path) : option (list instr) :=
 Section Compile.
   Variable pool : list Z.
   Variable shapes : list shape.
+  (* functions (non-capturing, with a non-nil parameter): a function literal is only accepted as the
+     whole value of a binding step `f = #T { body }`; `isfun` says which names are bound that way
+     (such a name is never bound to anything else, and only ever CALLED: `arg f`), `fnum` gives the
+     index of the function compiled from a body in the program's function table.  Both are
+     supplied by the caller, like `pool` and `shapes`. *)
+  Variable isfun : atom -> bool.
+  Variable fnum : expression -> option nat.
+
+  (* could the parameter type be nil (then the function would be nilary and ignore the flow)?
+     conservative: the nil type itself, or a type name (which an alias could define as nil) *)
+  Definition nil_param (pt : ty) : bool :=
+    match pt with TTuple None false [] => true | TIdentifier _ _ => true | _ => false end.
+
+  (* a step that is the nil literal: its static type is nil and the real compiler drops the steps
+     after it (not mirrored: refused) *)
+  Definition ends_in_nil_literal (c : chain) : bool :=
+    match c with
+    | Chain None ts => match last ts (Literal (LInteger 0)) with Tuple Anonymous [] => true | _ => false end
+    | _ => false
+    end.
 
   Fixpoint compile_term (sc : scope) (t : term) {struct t} : option (list instr * scope) :=
     match t with
@@ -142,15 +186,105 @@ Section Compile.
     | Access (mkAccess None path) | Access (mkAccess (Some Ripple) path) =>
         match gets path with Some c => Some (c, sc) | None => None end
     | Access (mkAccess (Some (Identifier x)) path) =>
+        if isfun x then
+          (* a function variable is called with the flowing value *)
+          match scope_lookup sc x, path with
+          | Some i, [] => Some ([ILoad i; ICall], sc)
+          | _, _ => None
+          end
+        else
         match scope_lookup sc x, gets path with
         | Some i, Some c => Some (IPop :: ILoad i :: c, sc)
         | _, _ => None
         end
-    | Match (MIdentifier x) => if x =? a_star then None else Some (binder_code, sc ++ [Some x])
+    | Match (MIdentifier x) => if (x =? a_star) || isfun x then None else Some (binder_code, sc ++ [Some x])
+    | Match (MLiteral (LInteger z)) =>
+        match const_index pool z with
+        | Some k => Some (literal_match_code k, sc)
+        | None => None
+        end
+    (* a block: its input is stored in the next slot `b` and every branch starts from it; a branch
+       that bound locals resets to b+1; the block ends with a reset to b.  Refused: a branch with a
+       consequence whose CONDITION binds (the compiler then emits an out-of-line failure handler). *)
+    | Block (Expression bs) =>
+        let b := length sc in
+        let scb := sc ++ [None] in
+        let seq_go :=
+          fix seq_go (cs : list chain) (sc : scope) {struct cs} : option (list instr * scope) :=
+            match cs with
+            | [] => None
+            | c :: r =>
+                match r with
+                | [] => compile_chain sc c
+                | _ :: _ =>
+                    if ends_in_nil_literal c then None else
+                    match compile_chain sc c with
+                    | Some (cc, sc1) =>
+                        match seq_go r sc1 with
+                        | Some (cr, sc2) =>
+                            Some (cc ++ [IDuplicate; INot; IJumpIf (Z.of_nat (length cr))] ++ cr, sc2)
+                        | None => None
+                        end
+                    | None => None
+                    end
+                end
+            end in
+        match (fix br_go (bs : list branch) {struct bs} : option (list instr) :=
+                 match bs with
+                 | [] => None
+                 | Branch (Sequence cs) k :: r =>
+                     match seq_go cs scb with
+                     | None => None
+                     | Some (cc, sc1) =>
+                         let bound := Nat.ltb (S b) (length sc1) in
+                         match k with
+                         | None =>
+                             let body := cc ++ (if bound then [IReset (S b)] else []) in
+                             match r with
+                             | [] => Some body
+                             | _ :: _ =>
+                                 match br_go r with
+                                 | Some cr =>
+                                     Some (body ++ [IDuplicate; IJumpIf (Z.of_nat (2 + length cr)); IPop; ILoad b] ++ cr)
+                                 | None => None
+                                 end
+                             end
+                         | Some (Sequence ks) =>
+                             if bound then None else
+                             match seq_go ks scb with
+                             | None => None
+                             | Some (ck, sc2) =>
+                                 let kb := ck ++ (if Nat.ltb (S b) (length sc2) then [IReset (S b)] else []) in
+                                 match r with
+                                 | [] =>
+                                     Some (cc ++ [IDuplicate; INot; IJumpIf (Z.of_nat (2 + length kb)); IPop; ILoad b] ++ kb)
+                                 | _ :: _ =>
+                                     match br_go r with
+                                     | Some cr =>
+                                         Some (cc ++ [IDuplicate; INot; IJumpIf (Z.of_nat (3 + length kb)); IPop; ILoad b] ++ kb
+                                                  ++ [IJump (Z.of_nat (2 + length cr)); IPop; ILoad b] ++ cr)
+                                     | None => None
+                                     end
+                                 end
+                             end
+                         end
+                     end
+                 end) bs with
+        | Some cb => Some (IStore :: ILoad b :: cb ++ [IReset b], sc)
+        | None => None
+        end
     | _ => None
     end
   with compile_chain (sc : scope) (c : chain) {struct c} : option (list instr * scope) :=
     match c with
+    | Chain (Some (MIdentifier f)) [Function _ (Some pt) _ (Some body)] =>
+        (* `f = #T { body }`: the function value, then the binder *)
+        if isfun f && negb (f =? a_star) && negb (nil_param pt) then
+          match fnum body with
+          | Some k => Some ([IPop; IFunction k] ++ binder_code, sc ++ [Some f])
+          | None => None
+          end
+        else None
     | Chain mp ts =>
         match (fix go (ts : list term) (sc : scope) : option (list instr * scope) :=
                  match ts with
@@ -168,19 +302,11 @@ Section Compile.
         | Some (ct, sc1) =>
             match mp with
             | None => Some (ct, sc1)
-            | Some (MIdentifier x) => if x =? a_star then None else Some (ct ++ binder_code, sc1 ++ [Some x])
+            | Some (MIdentifier x) => if (x =? a_star) || isfun x then None else Some (ct ++ binder_code, sc1 ++ [Some x])
             | Some _ => None
             end
         | None => None
         end
-    end.
-
-  (* a step that is the nil literal: its static type is nil and the real compiler drops the steps
-     after it (not mirrored: refused) *)
-  Definition ends_in_nil_literal (c : chain) : bool :=
-    match c with
-    | Chain None ts => match last ts (Literal (LInteger 0)) with Tuple Anonymous [] => true | _ => false end
-    | _ => false
     end.
 
   Fixpoint compile_seq (sc : scope) (cs : list chain) : option (list instr * scope) :=
@@ -198,6 +324,14 @@ Section Compile.
             end
         | None => None
         end
+    end.
+
+  (* the code of the function compiled from a body: a block at the empty scope — the parameter in
+     slot 0, the branches, reset 0 *)
+  Definition function_code (body : expression) : option (list instr) :=
+    match compile_term [] (Block body) with
+    | Some (c, _) => Some c
+    | None => None
     end.
 
   (* compiler.rs: the entry function stores its parameter in slot 0 and starts from it *)
